@@ -139,6 +139,26 @@ impl Task {
   }
 }
 
+impl Task {
+  /// Bring the task to an end under scheduler control (never leave a thread running ungated):
+  /// grant steps until it parks at an await or finishes, cancel it when parked.
+  pub fn retire(&mut self) {
+    for _ in 0..500 {
+      if self.finished {
+        return;
+      }
+      if !self.started || self.last == Report::Blocked {
+        let _ = self.cancel();
+        if !self.finished && !self.started {
+          return;
+        }
+      } else {
+        let _ = self.step();
+      }
+    }
+  }
+}
+
 pub fn show(r: &Report) -> String {
   match r {
     Report::AtPoint(l) => format!("@{}", l),
